@@ -35,9 +35,10 @@ type tunCfg struct {
 	Up, Down    simnet.Link
 	TimerLate   int
 	LateMax     time.Duration
-	Adversary   int // chaos frames injected
-	Director    int // epoch-level faults injected
-	StaleAt     int // >0: after this many acknowledged requests the gateway leaves stale acknowledgements on offer and replaces the connection
+	Adversary   int  // chaos frames injected
+	Director    int  // epoch-level faults injected
+	StaleAt     int  // >0: after this many acknowledged requests the gateway leaves stale acknowledgements on offer and replaces the connection
+	Busmon      bool // bus monitor tunnel: inbound telegrams are L_Busmon.ind
 	Sticky      int
 	PCT         int
 	Window      int  // gateway's outbound window (1 = stop-and-wait)
@@ -205,6 +206,9 @@ func drawTunCfg(e *Env) tunCfg {
 		c.Senders = 1 + e.Choose("cfg.senders3", 3)
 		c.SendsEach = 1 + e.Choose("cfg.sends6", 6)
 		c.Inbound = e.Choose("cfg.inbound6", 7)
+		if shape >= 4 && shape <= 6 {
+			c.WriteErr = []int{0, 50, 200}[e.Choose("cfg.werr05", 3)] // to the gateway a datagram that could not be written is one that was lost
+		}
 		if shape == 9 {
 			c.SendsEach = 300 / c.Senders
 			c.Inbound = 300
@@ -250,6 +254,13 @@ func drawTunCfg(e *Env) tunCfg {
 		c.TCP = shape == 1 && e.Choose("cfg.tcp", 2) == 1
 	case "C12":
 		c.Senders = 1
+	case "C16":
+		// the connect request's endpoints: every combination of transport and SendLocalAddress, a few reconnects
+		c.TCP = e.Choose("cfg.tcp16", 2) == 1
+		c.Director = e.Choose("cfg.dir16", 3)
+	}
+	if (p == "C04" || p == "C05" || p == "C17") && e.Choose("cfg.busmon", 5) == 0 {
+		c.Busmon = true
 	}
 	if total := c.Senders * c.SendsEach; total > 1 && !c.FaultFree && !c.ForeignOnly && shape != 9 && (p == "C03" || p == "C05" || p == "C09" || p == "C10") && e.Choose("cfg.stale", 4) == 0 {
 		c.StaleAt = 1 + e.Choose("cfg.staleat", min(total-1, 12))
@@ -266,10 +277,10 @@ func drawTunCfg(e *Env) tunCfg {
 }
 
 func (c tunCfg) String() string {
-	return fmt.Sprintf("tcp=%v R=%v T=%v H=%v local=%v senders=%dx%d think=%v inbound=%d/%v reader=%s closers=%d early=%v up={drop=%d dup=%d late=%d dmax=%v} down={drop=%d dup=%d late=%d dmax=%v} tlate=%d adv=%d dir=%d foreignonly=%v sticky=%d pct=%d window=%d starve=%d/%v reusechan=%v werr=%d rerr=%v stall=%d/%v stale=%d",
+	return fmt.Sprintf("tcp=%v R=%v T=%v H=%v local=%v senders=%dx%d think=%v inbound=%d/%v reader=%s closers=%d early=%v up={drop=%d dup=%d late=%d dmax=%v} down={drop=%d dup=%d late=%d dmax=%v} tlate=%d adv=%d dir=%d foreignonly=%v sticky=%d pct=%d window=%d starve=%d/%v reusechan=%v werr=%d rerr=%v stall=%d/%v stale=%d busmon=%v",
 		c.TCP, c.R, c.T, c.H, c.LocalAddr, c.Senders, c.SendsEach, c.Think, c.Inbound, c.InboundGap, c.Reader, c.Closers, c.CloseEarly,
 		c.Up.DropPermille, c.Up.DupPermille, c.Up.LatePermille, c.Up.DelayMax, c.Down.DropPermille, c.Down.DupPermille, c.Down.LatePermille, c.Down.DelayMax,
-		c.TimerLate, c.Adversary, c.Director, c.ForeignOnly, c.Sticky, c.PCT, c.Window, c.Starve, c.StarveMax, c.ReuseChan, c.WriteErr, c.ReadErr, c.Stall, c.StallMax, c.StaleAt)
+		c.TimerLate, c.Adversary, c.Director, c.ForeignOnly, c.Sticky, c.PCT, c.Window, c.Starve, c.StarveMax, c.ReuseChan, c.WriteErr, c.ReadErr, c.Stall, c.StallMax, c.StaleAt, c.Busmon)
 }
 
 func idMessage(id int) cemi.Message {
@@ -286,6 +297,10 @@ func idMessage(id int) cemi.Message {
 func msgID(m cemi.Message) int {
 	var ld *cemi.LData
 	switch v := m.(type) {
+	case *cemi.LBusmonInd:
+		return busmonID([]byte(*v))
+	case cemi.LBusmonInd:
+		return busmonID([]byte(v))
 	case *cemi.LDataInd:
 		ld = &v.LData
 	case *cemi.LDataReq:
@@ -392,7 +407,12 @@ func runTunnel(e *Env) {
 	}
 	r.gw.Start()
 
-	tun, err := knx.NewTunnel(fmt.Sprintf("%s:%d", gwIP, gwPort), knxnet.TunnelLayerData, knx.TunnelConfig{
+	layer := knxnet.TunnelLayerData
+	if c.Busmon {
+		layer = knxnet.TunnelLayerBusmon
+	}
+	r.gw.Busmon = c.Busmon
+	tun, err := knx.NewTunnel(fmt.Sprintf("%s:%d", gwIP, gwPort), layer, knx.TunnelConfig{
 		ResendInterval: c.R, HeartbeatInterval: c.H, ResponseTimeout: c.T, SendLocalAddress: c.LocalAddr,
 	})
 	r.h.Created = e.Stamp()
@@ -708,6 +728,9 @@ func (r *tunRun) director() {
 			g.Disconnect()
 		case 4: // next connects are answered busy a few times, then ok
 			n := 1 + e.Choose("flt.busyn", 3)
+			if e.Choose("flt.busyforever", 3) == 0 {
+				n = 64 // the gateway stays full: every repetition of the connect request is answered "busy" until the client gives up
+			}
 			for j := 0; j < n; j++ {
 				g.ConnScript = append(g.ConnScript, connAction{"status", uint8(0x24 + e.Choose("flt.busyk", 2))})
 			}
